@@ -1,4 +1,4 @@
-def _opseq_c14(qdepth=2, tdepth=3, qdl=420, tdl=1500):
+def _opseq_c14(qdepth=2, tdepth=3, qdl=600, tdl=1500):
     return dict(
         level="model_checking",
         rule="BFS over histories of {load, refine, update, merge, clear, setcoef, begin, deliver, finish} from every configuration of the lattice (5 families, zero-output grids); "
@@ -15,7 +15,7 @@ def _opseq_c14(qdepth=2, tdepth=3, qdl=420, tdl=1500):
             "the complete catalogue is issued in every state of depth <= depth-1 and on the empty grid; at the deepest level only the entries whose validation depends on the grid state "
             "(refinement, construction, update, load/evaluate, hierarchical, domain; ~half of the catalogue) are issued - make*/read/factory/acceleration entries validate before touching the object",
             "level limits, transforms and the binary image are compared in addition to points/values/surrogate (a failed call that silently replaces the limits changes every later refinement)",
-            "after 3 sanitizer crashes of the same (entry, family) further experiments of that pair are skipped and counted (outcome 'skipped-after-repeated-crash')",
+            "after 3 sanitizer crashes of the same (entry, configuration) further experiments of that pair are skipped and counted (outcome 'skipped-after-repeated-crash')",
             "build without CUDA/HIP/DPC++: the acceleration entries exercise the 'not enabled at compile time' clauses",
         ],
         jobs=[dict(harness="opseq", variant="asan", args=["--prop", "C14", "--watchdog", "300"], quick=["--tier", "quick", "--depth", str(qdepth)],
